@@ -267,6 +267,43 @@ def rule_progress(ctx, fx, config):
             ctx.check(not still, "PROGRESS", "C01:PROGRESS:%s" % name, "every cycle of the loop pulls / pops / advances (%s)" % ", ".join(x.rsplit("::", 1)[-1] for x in prog),
                       "%s contains a loop cycle without any of its progress calls (%s): a hang on some input" % (name, ", ".join(prog)), config, ctx.where(f, min(comp)))
         ctx.check(bool(loops), "PROGRESS", "C01:PROGRESS:%s:has-loop" % name, "loop found", "no loop found in %s (table out of date)" % name, config, ctx.where(f))
+    # READ-ZERO: a loop whose progress is `Read::read` only advances when the read returned bytes; `Ok(0)` (end of input)
+    # must leave the loop, otherwise a stream ending early spins forever.
+    nread = 0
+    for f in sorted(fx.fns.values(), key=lambda f: f.npath):
+        if not P.in_scope(f):
+            continue
+        rd = [b for b, t in f.calls() if fx.callee_decl(t).endswith("io::Read::read")]
+        if not rd:
+            continue
+        for comp in f.sccs():
+            for rb in [b for b in rd if b in comp]:
+                nread += 1
+                zero_exit = False
+                for b in sorted(comp):
+                    t = f.blocks[b]["term"]
+                    if t["k"] != "switch" or 0 not in t["vals"]:
+                        continue
+                    with f.deep():
+                        sym = f.sym_operand(t["o"])
+                    r = render(sym)
+                    # the switch is on the byte count itself: `<read call>@Ok.0` (or `@Continue.0` after `?`)
+                    if sym[0] not in ("discr", "bin", "un", "call") and re.search(r"@(Ok|Continue)\.0$", r) and sym_contains(sym, lambda x: x[0] == "call" and len(x) > 3 and x[3] == rb):
+                        tgt0 = t["tgts"][t["vals"].index(0)]
+                        if tgt0 not in comp:
+                            zero_exit = True
+                # idiom 2: `let n = read(..)?; if n == 0 { break }`
+                with f.deep():
+                    for c in compares(f):
+                        if c["block"] in comp and c["op"] in ("Eq", "Ne") and "0" in (c["rr"], c["rl"]):
+                            other = c["lhs"] if c["rr"] == "0" else c["rhs"]
+                            if sym_contains(other, lambda x: x[0] == "call" and len(x) > 3 and x[3] == rb):
+                                ex = c["t"] if c["op"] == "Eq" else c["f"]
+                                if ex not in comp:
+                                    zero_exit = True
+                ctx.check(zero_exit, "PROGRESS", "C01:PROGRESS:read-zero:%s" % f.npath, "a zero-length read leaves the read loop",
+                          "%s loops on Read::read without leaving the loop when it returns Ok(0): an input that ends inside the awaited bytes spins forever" % f.npath, config, ctx.where(f, rb))
+    ctx.floor("PROGRESS.read-loops", nread, 2, config)
     its = proto.iterator_nexts(fx)
     for f in its:
         nexts = [b for b, t in f.calls() if fx.callee(t) == proto.NEXT]
